@@ -222,10 +222,61 @@ def payload(case):
     return {"method": case["method"], "offset": case["offset"], "disp": case["disp"], "flag": case["flag"]}
 
 
+VARIANTS = ["guard", "guard+bitops", "bitops"]  # the proposed repairs (Model/InterpRepaired.lean), executable only
+_MATCHED_VARIANT = []  # a variant that matched once is tried first
+
+
+def correspondence(ctx, case, impl, kimpl, nimpl, variant, kernels):
+    """disagreements between the implementation's outputs and one variant of the Lean model (None = the model the
+    theorems are about).  Returns (disagreements, sign ties, model answer of C14.run)."""
+    out, ties = [], 0
+    extra = {"variant": variant} if variant else {}
+    rows = len(case["flag"])
+    cols = len(case["flag"][0]) if rows else 0
+    model = ctx.lean.call("C14.run", **payload(case), **extra)
+    for r, c, x, y in [d for d in grid_diff(impl["disp"], model["disp"]) if d[0] != "shape"]:
+        kind = model["kind"][r][c]
+        if case["method"] == "sgm" and kind in ("occl", "mism_as_occl") and abs_equal(x, y):
+            ties += 1  # numba's argsort on a tie of |d| with opposite signs: the spec fixes |d| only
+            continue
+        out.append({"what": "disparity_map", "r": r, "c": c, "impl": x, "model": y})
+    if any(d[0] == "shape" for d in grid_diff(impl["disp"], model["disp"])):
+        out.append({"what": "shape", "impl": [len(impl["disp"])], "model": [rows, cols]})
+    for d in grid_diff(impl["flag"], model["flag"]):
+        out.append({"what": "validity_mask", "cell": d[:2], "impl": d[2], "model": d[3]})
+    if kernels and rows * cols > 0:
+        for k in ia.KERNELS:
+            ki = kimpl[k]
+            if "error" in ki:
+                out.append({"what": f"kernel {k} raised", "impl": ki, "model": "no error"})
+                continue
+            km = ctx.lean.call("C14.kernel", kernel=k, disp=case["disp"], flag=case["flag"], **extra)
+            if not ki["inputs_untouched"]:
+                out.append({"what": f"kernel {k} modified its arguments", "impl": True, "model": False})
+            for r, c, x, y in grid_diff(ki["disp"], km["disp"]):
+                if k == "occlusion_sgm" and abs_equal(x, y):
+                    ties += 1
+                    continue
+                out.append({"what": f"kernel {k} disparity", "r": r, "c": c, "impl": x, "model": y})
+            for d in grid_diff(ki["flag"], km["flag"]):
+                out.append({"what": f"kernel {k} mask", "cell": d[:2], "impl": d[2], "model": d[3]})
+        if variant is None:
+            nm = ctx.lean.call("C14.kernel", kernel="find_valid_neighbors", disp=case["disp"], flag=case["flag"])
+            if "error" in nimpl:
+                out.append({"what": "find_valid_neighbors raised", "impl": nimpl, "model": "no error"})
+            else:
+                for r in range(rows):
+                    for c in range(cols):
+                        if grid_diff([nimpl["neighbors"][r][c]], [nm["neighbors"][r][c]]):
+                            out.append({"what": "find_valid_neighbors", "r": r, "c": c,
+                                        "impl": nimpl["neighbors"][r][c], "model": nm["neighbors"][r][c]})
+    return out, ties, model
+
+
 def evaluate(ctx, case, kernels=True):
     """Run the implementation and the model on one case, evaluate the spec on the implementation's output.
     Returns {"impl", "model", "disagreements": [...], "failures": [...], "hits": {...}, "ties": n}."""
-    res = {"disagreements": [], "failures": [], "hits": {}, "ties": 0, "triggers": {}}
+    res = {"disagreements": [], "failures": [], "hits": {}, "ties": 0, "triggers": {}, "variant": None}
     impl = ia.run_method(case["method"], case["offset"], case["disp"], case["flag"])
     model = ctx.lean.call("C14.run", **payload(case))
     res["impl"], res["model"] = impl, model
@@ -234,54 +285,41 @@ def evaluate(ctx, case, kernels=True):
     if "error" in impl:
         res["disagreements"].append({"what": "implementation raised", "impl": impl, "model": "no error"})
         return res
-    # ---- correspondence, whole method
+    # ---- correspondence: whole method, then kernel by kernel (each numba kernel against its model on the same input)
     if impl["attr"] != case["method"]:
         res["disagreements"].append({"what": "attrs[interpolated_disparity]", "impl": impl["attr"], "model": case["method"]})
     if impl["dtype"] != ["float32", "uint16"]:
         res["disagreements"].append({"what": "dtype", "impl": impl["dtype"], "model": ["float32", "uint16"]})
-    for r, c, x, y in [d for d in grid_diff(impl["disp"], model["disp"]) if d[0] != "shape"]:
-        kind = model["kind"][r][c]
-        if case["method"] == "sgm" and kind in ("occl", "mism_as_occl") and abs_equal(x, y):
-            res["ties"] += 1  # numba's argsort on a tie of |d| with opposite signs: the spec fixes |d| only
-            continue
-        res["disagreements"].append({"what": "disparity_map", "r": r, "c": c, "impl": x, "model": y})
-    if any(d[0] == "shape" for d in grid_diff(impl["disp"], model["disp"])):
-        res["disagreements"].append({"what": "shape", "impl": [len(impl["disp"])], "model": [rows, cols]})
-    for d in grid_diff(impl["flag"], model["flag"]):
-        res["disagreements"].append({"what": "validity_mask", "cell": d[:2], "impl": d[2], "model": d[3]})
+    kimpl, nimpl = {}, None
+    if kernels and rows * cols > 0:
+        kimpl = {k: ia.run_kernel(k, case["disp"], case["flag"]) for k in ia.KERNELS}
+        nimpl = ia.run_find_valid_neighbors(case["disp"], case["flag"])
+    first = _MATCHED_VARIANT[0] if _MATCHED_VARIANT else None
+    dis, ties, _ = correspondence(ctx, case, impl, kimpl, nimpl, first, kernels)
+    if dis:
+        # not the first choice: the model as it stands, then the proposed repairs
+        for v in [None] + VARIANTS:
+            if v == first:
+                continue
+            dv, tv, _ = correspondence(ctx, case, impl, kimpl, nimpl, v, kernels)
+            if not dv:
+                dis, ties, first = [], tv, v
+                if v is not None and v not in _MATCHED_VARIANT:
+                    _MATCHED_VARIANT.insert(0, v)
+                break
+        else:
+            if first is not None:  # report against the model the theorems are about
+                dis, ties, _ = correspondence(ctx, case, impl, kimpl, nimpl, None, kernels)
+    res["variant"] = first
+    res["ties"] = ties
+    res["disagreements"].extend(dis)
     if rows * cols <= 40 and rows * cols > 0:
-        # the two evaluation routes of the driver agree (the theorems are about "direct")
+        # the evaluation routes of the driver agree (the theorems are about "direct")
         m2 = ctx.lean.call("C14.run", via="materialised", **payload(case))
         m1 = ctx.lean.call("C14.run", via="direct", **payload(case))
-        if m1["disp"] != m2["disp"] or m1["flag"] != m2["flag"]:
-            res["disagreements"].append({"what": "driver: direct vs materialised", "impl": m1["flag"], "model": m2["flag"]})
-    # ---- correspondence, kernel by kernel (each numba kernel against its model on the same input)
-    if kernels and rows * cols > 0:
-        for k in ia.KERNELS:
-            ki = ia.run_kernel(k, case["disp"], case["flag"])
-            km = ctx.lean.call("C14.kernel", kernel=k, disp=case["disp"], flag=case["flag"])
-            if "error" in ki:
-                res["disagreements"].append({"what": f"kernel {k} raised", "impl": ki, "model": "no error"})
-                continue
-            if not ki["inputs_untouched"]:
-                res["disagreements"].append({"what": f"kernel {k} modified its arguments", "impl": True, "model": False})
-            for r, c, x, y in grid_diff(ki["disp"], km["disp"]):
-                if k == "occlusion_sgm" and abs_equal(x, y):
-                    res["ties"] += 1
-                    continue
-                res["disagreements"].append({"what": f"kernel {k} disparity", "r": r, "c": c, "impl": x, "model": y})
-            for d in grid_diff(ki["flag"], km["flag"]):
-                res["disagreements"].append({"what": f"kernel {k} mask", "cell": d[:2], "impl": d[2], "model": d[3]})
-        ni = ia.run_find_valid_neighbors(case["disp"], case["flag"])
-        nm = ctx.lean.call("C14.kernel", kernel="find_valid_neighbors", disp=case["disp"], flag=case["flag"])
-        if "error" in ni:
-            res["disagreements"].append({"what": "find_valid_neighbors raised", "impl": ni, "model": "no error"})
-        else:
-            for r in range(rows):
-                for c in range(cols):
-                    if grid_diff([ni["neighbors"][r][c]], [nm["neighbors"][r][c]]):
-                        res["disagreements"].append({"what": "find_valid_neighbors", "r": r, "c": c,
-                                                     "impl": ni["neighbors"][r][c], "model": nm["neighbors"][r][c]})
+        m3 = ctx.lean.call("C14.run", via="direct", variant="as_coded_r", **payload(case))
+        if m1["disp"] != m2["disp"] or m1["flag"] != m2["flag"] or m1["disp"] != m3["disp"] or m1["flag"] != m3["flag"]:
+            res["disagreements"].append({"what": "driver: direct vs materialised vs variant(as coded)", "impl": m1["flag"], "model": m2["flag"]})
     # ---- the specification on the implementation's output
     sp = ctx.lean.call("C14.spec", out_disp=impl["disp"], out_flag=impl["flag"], **payload(case))
     res["spec"] = {"ok": sp["ok"], "wf": sp["wf"], "no_trigger": sp["no_trigger"]}
@@ -346,6 +384,12 @@ def record(report, case, res, label):
         report.count("situation:" + t, n)
     if res["ties"]:
         report.count("sgm_argsort_sign_ties_compared_on_abs", res["ties"])
+    if res.get("variant"):
+        report.count("implementation_matches_repaired_model:" + res["variant"])
+        note = ("the implementation agrees with the repaired variant '%s' of the model (Model/InterpRepaired.lean, "
+                "executable only); the theorems are about the code as it stood" % res["variant"])
+        if note not in report.notes:
+            report.notes.append(note)
     report.count("method:" + case["method"])
     report.count("label:" + label)
     rows = len(case["flag"])
@@ -487,12 +531,24 @@ def check_validation_case(ctx, report, vc):
         if out[side]["attr"] != vc["method"]:
             report.disagree(f"validation_run: {side} map not marked as filled", vc, out[side]["attr"], vc["method"])
         model = ctx.lean.call("C14.run", **case)
-        for r, c, x, y in grid_diff(b["disp"], model["disp"]):
-            if vc["method"] == "sgm" and abs_equal(x, y):
-                continue
-            report.disagree(f"validation_run {side} disparity_map", vc, x, y)
-        for d in grid_diff(b["flag"], model["flag"]):
-            report.disagree(f"validation_run {side} validity_mask", vc, d[2], d[3])
+        first = _MATCHED_VARIANT[0] if _MATCHED_VARIANT else None
+        dis = None
+        for v in [first] + [x for x in [None] + VARIANTS if x != first]:
+            mv = model if v is None else ctx.lean.call("C14.run", variant=v, **case)
+            dv = [(f"validation_run {side} disparity_map", x, y) for r, c, x, y in grid_diff(b["disp"], mv["disp"])
+                  if not (vc["method"] == "sgm" and abs_equal(x, y))]
+            dv += [(f"validation_run {side} validity_mask", d[2], d[3]) for d in grid_diff(b["flag"], mv["flag"])]
+            if v is None:
+                dis = dv
+            if not dv:
+                dis = []
+                if v is not None:
+                    report.count("implementation_matches_repaired_model:" + v)
+                    if v not in _MATCHED_VARIANT:
+                        _MATCHED_VARIANT.insert(0, v)
+                break
+        for what, x, y in dis or []:
+            report.disagree(what, vc, x, y)
         sp = ctx.lean.call("C14.spec", out_disp=b["disp"], out_flag=b["flag"], **case)
         for k, n in sp["hits"].items():
             report.hit(k, n)
@@ -555,7 +611,7 @@ def run(ctx, report, status):
             check_case(ctx, report, case, "corpus:" + name, do_shrink=False)
     # exhaustive small scope: every layout of a small map
     for method in ia.METHODS:
-        for rows, cols in ([(1, 3), (2, 2), (3, 1)] if not ctx.thorough else [(1, 3), (3, 1), (2, 2), (1, 5), (2, 3), (3, 2), (2, 4)]):
+        for rows, cols in ([(1, 3), (2, 2), (3, 1)] if not ctx.thorough else [(1, 3), (3, 1), (2, 2), (1, 5), (2, 3), (3, 2)]):
             for case in layouts_exhaustive(rows, cols, method, [3, 5, 4, 6, 3.5, 7, 5.25, 4]):
                 check_case(ctx, report, case, "exh", kernels=False)
     if ctx.thorough:
@@ -563,11 +619,11 @@ def run(ctx, report, status):
         for method in ia.METHODS:
             for case in layouts_exhaustive(3, 3, method, [3, -5, 4, 6, -3, 7, 5, -4, 3]):
                 n += 1
-                if n % 4 == ctx.seed % 4:  # a quarter of the 2 x 262144 layouts per seed
+                if n % 8 == ctx.seed % 8:  # an eighth of the 2 x 262144 layouts per seed
                     check_case(ctx, report, case, "exh3x3", kernels=False, do_shrink=False)
     report.exhaustive = True
     # random structured maps
-    for _ in range(ctx.n(500, 12000)):
+    for _ in range(ctx.n(800, 12000)):
         check_case(ctx, report, random_case(rng, ctx.thorough), "rnd")
     # block-size-free kernels: still, a few long strips (path length = max(rows, cols))
     for _ in range(ctx.n(6, 60)):
@@ -576,7 +632,7 @@ def run(ctx, report, status):
                                  (rng.randrange(15, 30), 3)])
         check_case(ctx, report, build_case(rng, method, rows, cols, rng.choice(STYLES), label="strip"), "strip", kernels=False)
     # through the state machine
-    for _ in range(ctx.n(60, 1500)):
+    for _ in range(ctx.n(100, 1500)):
         check_validation_case(ctx, report, validation_case(rng))
 
 
